@@ -1,2 +1,187 @@
-(* props/C10.v — placeholder while the proofs are being written *)
-Require Import Aiuti.Batcher.
+(* props/C10.v — C10: batches respect size and concurrency limits, FIFO order and
+   the batch timeout.  ONLY theorem statements about the executable macro-step
+   model coq/theories/Batcher.v ([run c evs] = (trace per macro step, final
+   state)), each closed by a lemma of BatcherLimits.v / BatcherTime.v, with
+   Print Assumptions beneath, and non-vacuity Examples at the end.
+
+   Quantification: ALL configurations with max_batch_size >= 1 and
+   max_concurrent_batches >= 1 ([cfg_ok]) and ALL event lists (calls, bursts,
+   time advances, batch-function yields / raises / returns, caller cancellations,
+   max_batch_size mutations to values >= 1 ([ev_ok])).  No bound on anything.
+
+   Ghost history used in the statements (fields of the model state that no
+   transition ever reads): g_items = the item-creating calls in arrival order
+   (each stamped with its arrival tick it_t and the max_batch_size in force then,
+   it_max); g_started = (batch id, items, start tick) per invocation of the batch
+   function; g_spawn = (items, spawn tick) per _process_batch task created by the
+   collector.  [trace_starts_are_g_started] ties g_started to the observable
+   BatchStart events, which is what the harness compares with the real code. *)
+From Coq Require Import List Arith NArith Bool.
+Import ListNotations.
+Require Import Aiuti.Batcher Aiuti.BatcherLimits Aiuti.BatcherTime.
+
+(* Every batch handed to the batch function is non-empty and no larger than
+   lim = the largest max_batch_size that was in force when one of its items
+   arrived.  (When max_batch_size is lowered while a batch is being collected the
+   open batch may exceed the NEW limit — the model shows it, the docs allow the
+   mutation; see [Example lowered_limit_example].) *)
+Theorem size_bound :
+  forall c evs, cfg_ok c -> Forall ev_ok evs ->
+  forall b items t, In (BatchStart b items t) (concat (fst (run c evs))) ->
+  exists its, In (b, its, t) (g_started (snd (run c evs))) /\ items = map ka its /\
+              1 <= length items /\ length items <= lim_of its.
+Proof. exact size_bound_lemma. Qed.
+Print Assumptions size_bound.
+
+(* Without SetMax events: 1 <= |batch| <= max_batch_size. *)
+Theorem size_bound_const :
+  forall c evs, cfg_ok c -> forallb (fun e => negb (has_setmax e)) evs = true ->
+  forall b items t, In (BatchStart b items t) (concat (fst (run c evs))) ->
+  1 <= length items <= c_maxb c.
+Proof. exact size_bound_const_lemma. Qed.
+Print Assumptions size_bound_const.
+
+(* After any event list: at most max_concurrent_batches executions of the batch
+   function are in progress (free slots + running = max_concurrent_batches), and
+   a spawned batch is kept waiting only while all slots are taken. *)
+Theorem conc_bound :
+  forall c evs, cfg_ok c -> Forall ev_ok evs ->
+  let s := snd (run c evs) in
+  length (running s) <= c_conc c /\ free s + length (running s) = c_conc c /\
+  (waiting s <> [] -> length (running s) = c_conc c).
+Proof. exact conc_bound_lemma. Qed.
+Print Assumptions conc_bound.
+
+(* FIFO within and across batches: the (key, arg) pairs of all BatchStarts of the
+   trace, concatenated in trace order, followed by the batches still queued on the
+   semaphore and by the open batch, are exactly the item-creating calls in
+   arrival order. *)
+Theorem fifo :
+  forall c evs, cfg_ok c -> Forall ev_ok evs ->
+  let tr := fst (run c evs) in let s := snd (run c evs) in
+  flat_map items_of_start (filter is_start (concat tr))
+    ++ map ka (concat (waiting s)) ++ map ka (coll_items s)
+  = map ka (g_items s).
+Proof. exact fifo_lemma. Qed.
+Print Assumptions fifo.
+
+(* The BatchStart events of the trace are exactly the ghost log g_started (so the
+   statements about g_started / g_spawn are statements about what is observed). *)
+Theorem trace_starts_are_g_started :
+  forall c evs,
+  filter is_start (concat (fst (run c evs))) = map start_obs (g_started (snd (run c evs))).
+Proof. exact trace_starts. Qed.
+Print Assumptions trace_starts_are_g_started.
+
+(* Calls share the open batch until it is full: in any state satisfying the
+   invariant [LInv] (every reachable state does, [reachable_LInv]) with an open
+   batch [its], a call with a key that is not being remembered joins [its] — the
+   batch stays open with its deadline re-armed to now + batch_timeout while it is
+   below max_batch_size, and is handed over with the new item the moment it
+   reaches max_batch_size.  No second batch is opened while one is open. *)
+Theorem share_until_full :
+  forall c s its dl a ko,
+  LInv c s -> coll s = Some (its, dl) -> lookup (ret s) (key_of a ko) = None ->
+  let s' := fst (step c s (Call a ko)) in
+  let it := mkitem (key_of a ko) a (nfut s) (now s) (maxb s) in
+  (length its + 1 < maxb s -> coll s' = Some (its ++ [it], (now s + c_bt c)%N) /\ handed s' = handed s) /\
+  (maxb s <= length its + 1 -> coll s' = None /\ handed s' = handed s ++ (its ++ [it])).
+Proof. exact share_until_full_lemma. Qed.
+Print Assumptions share_until_full.
+
+Theorem reachable_LInv :
+  forall c evs, cfg_ok c -> Forall ev_ok evs -> LInv c (snd (run c evs)).
+Proof. exact reachable_LInv_lemma. Qed.
+Print Assumptions reachable_LInv.
+
+(* The batch timeout.  After any event list, with s the state reached:
+   1. the open batch's deadline is (arrival of its last item) + batch_timeout, and
+      the clock has not passed it (has not reached it when batch_timeout > 0):
+      an item never sits in the collector beyond last-arrival + batch_timeout;
+   2. every item that is not in the open batch is in a spawned batch;
+   3. every batch was spawned at the arrival of its last item if that item filled
+      it (limit in force at that arrival), otherwise exactly batch_timeout after
+      that arrival — in any case no later than last arrival + batch_timeout;
+      and no item of the batch arrived after its last item;
+   4. spawn order = start order: the i-th spawned batch is the i-th invocation of
+      the batch function, never started before it was spawned; the spawned batches
+      not yet started are exactly the semaphore queue, in spawn order;
+   5. a spawned batch waits only while max_concurrent_batches batches are running.
+   [start_at_spawn_or_release] adds: a batch starts in the very step (and at the
+   very instant) it was spawned, or in the step that ends another batch. *)
+Theorem dispatch_deadline :
+  forall c evs, cfg_ok c -> Forall ev_ok evs ->
+  let s := snd (run c evs) in
+  (forall its dl, coll s = Some (its, dl) ->
+     exists x, last_of its x /\ dl = (it_t x + c_bt c)%N /\ (now s <= dl)%N /\ ((0 < c_bt c)%N -> (now s < dl)%N)) /\
+  (forall it, In it (g_items s) -> In it (coll_items s) \/ exists its sp, In (its, sp) (g_spawn s) /\ In it its) /\
+  (forall its sp, In (its, sp) (g_spawn s) ->
+     exists x, last_of its x /\ sp = spawn_due c its x /\ (it_t x <= sp <= it_t x + c_bt c)%N /\ (sp <= now s)%N) /\
+  map fst (g_spawn s) = map st_items (g_started s) ++ waiting s /\
+  (forall i its sp b its' t, nth_error (g_spawn s) i = Some (its, sp) -> nth_error (g_started s) i = Some (b, its', t) ->
+     its' = its /\ (sp <= t)%N) /\
+  (waiting s <> [] -> free s = 0 /\ length (running s) = c_conc c).
+Proof. exact dispatch_deadline_lemma. Qed.
+Print Assumptions dispatch_deadline.
+
+(* Why a batch starts when it does — for ANY state s and event e: a BatchStart
+   emitted by the macro step is for a batch that was spawned in this same step at
+   this same instant t (slot free at once), or e is a batch-function event
+   (BYield / BRaise / BFinish — the only events that end a batch and free a slot)
+   and the batch is the head of the semaphore queue, started now. *)
+Theorem start_at_spawn_or_release :
+  forall c s e b items t,
+  In (BatchStart b items t) (snd (step c s e)) ->
+  exists its, items = map ka its /\
+    ((exists nsp, g_spawn (fst (step c s e)) = g_spawn s ++ nsp /\ In (its, t) nsp) \/
+     (is_batch_event e = true /\ exists ws, waiting s = its :: ws /\ t = now s /\ b = nbid s)).
+Proof. exact start_cause_lemma. Qed.
+Print Assumptions start_at_spawn_or_release.
+
+(* The model clock is exact and [advance] never runs out of fuel, for every event
+   list: so "now" in the statements above is the sum of the Advance events, and no
+   theorem needs a fuel hypothesis. *)
+Theorem clock_exact :
+  forall c evs, fuel_out (snd (run c evs)) = false /\ now (snd (run c evs)) = total_adv evs.
+Proof. exact clock_exact_lemma. Qed.
+Print Assumptions clock_exact.
+
+(* ---- non-vacuity --------------------------------------------------------------- *)
+
+Definition ex_cfg := mkcfg 2 1 10%N 0%N.      (* max_batch_size 2, one slot, batch_timeout 10 *)
+Definition ex_evs :=
+  [Call 1 None; Advance 9; Call 2 None; Call 3 None; Advance 10; Call 4 None; BFinish 0; Advance 10; BFinish 1].
+
+Example ex_hyps : cfg_ok ex_cfg /\ Forall ev_ok ex_evs /\ forallb (fun e => negb (has_setmax e)) ex_evs = true.
+Proof. repeat split; try (unfold ex_cfg; simpl; auto); repeat constructor. Qed.
+
+(* calls at 0 and 9 fill batch 0 at tick 9 (started at once); call 3 times out at 19
+   and queues behind batch 0 (one slot); call 4 opens a new batch; finishing batch 0
+   starts batch 1 at 19; batch 2 is spawned at 29 and starts when batch 1 ends *)
+Example ex_trace :
+  map (filter is_start) (fst (run ex_cfg ex_evs)) =
+  [[]; []; [BatchStart 0 [(1, 1); (2, 2)] 9%N]; []; []; []; [BatchStart 1 [(3, 3)] 19%N]; []; [BatchStart 2 [(4, 4)] 29%N]].
+Proof. vm_compute. reflexivity. Qed.
+
+Example ex_spawns :
+  map snd (g_spawn (snd (run ex_cfg ex_evs))) = [9%N; 19%N; 29%N] /\
+  map (fun x => snd x) (g_started (snd (run ex_cfg ex_evs))) = [9%N; 19%N; 29%N].
+Proof. vm_compute. split; reflexivity. Qed.
+
+(* a state with an open batch, a queued batch and a running batch at once *)
+Example ex_mid :
+  let s := snd (run ex_cfg (firstn 6 ex_evs)) in
+  coll_items s <> [] /\ waiting s <> [] /\ length (running s) = 1 /\ free s = 0.
+Proof. vm_compute. repeat split; discriminate. Qed.
+
+(* share_until_full's hypotheses are satisfiable in a reachable state *)
+Example ex_share :
+  let s := snd (run (mkcfg 3 1 10%N 0%N) [Call 1 None]) in
+  exists its dl, coll s = Some (its, dl) /\ lookup (ret s) (key_of 2 None) = None /\ length its + 1 < maxb s.
+Proof. vm_compute. eexists _, _. split; [reflexivity|]. split; [reflexivity|]. repeat constructor. Qed.
+
+(* max_batch_size lowered during collection: the open batch of 2 exceeds the new limit 1, within lim = 3 *)
+Example lowered_limit_example :
+  fst (run (mkcfg 3 1 10%N 0%N) [Call 1 None; Call 2 None; SetMax 1; Advance 10]) =
+  [[]; []; []; [BatchStart 0 [(1, 1); (2, 2)] 10%N]].
+Proof. vm_compute. reflexivity. Qed.
